@@ -1,8 +1,334 @@
 import Got.Drv.Common
-/- driver for the taskq model family (properties C09): to be written -/
+import Got.Model.TaskQ
+/-
+drv_taskq (monitor mode): input line = `<script>\t<impl observation>`; answer `ok` or `reject <model line>`.
+
+script:  c09 K <k> close <t|-> cstop <n|-> cons <start> <d0> <d1> ... | <p> <kind> <t> ; <p> <kind> <t> ; ...
+  kinds: cb0..cb3 (SendCallback, handler returns pair code), cd0..cd3 (same, consumer calls Do twice),
+         nil (SendCallback(nil)), tk (SendTask(user task)), tn (SendTask(nil)).
+  Times are virtual ns relative to the scenario start.  The consumer works at instants ≡ 8 (mod 16);
+  the j-th received task keeps it busy until alignUp(now + d_(j mod n)).
+
+The driver executes a *timed* run of Got.Model.TaskQ: every transition goes through `TaskQ.step`
+(a disabled step is an error, reported as `E model-step-disabled`), scheduling = earliest instant first
+(maximal progress, as the Go runtime's faketime clock).  Where the model is nondeterministic – a select
+with both branches ready – the branch is taken from the implementation's observation (`out` field of the
+send), so that acceptance = the observation is a trace of the model.
+-/
 namespace Got.Drv.TaskQ
+open Got.Model.TaskQ Got.Drv
+
+structure SendSpec where
+  g : Nat        -- global index in the script
+  p : Nat
+  i : Nat        -- index within the producer
+  kind : String
+  at_ : Nat
+  deriving Inhabited
+
+structure Scn where
+  K : Nat
+  close : Option Nat
+  cstop : Option Nat
+  cstart : Nat
+  cdel : Array Nat
+  sends : Array SendSpec
+  byProd : Array (Array SendSpec)
+
+inductive Cons where
+  | notStarted (t : Nat)
+  | waiting
+  | busy (fin : Nat) (g : Nat) (phase : Nat) (delay : Nat)
+  | stopped
+
+structure SRec where
+  tb : Option Nat := none
+  tr : Option Nat := none
+  out : String := "-"
+  id : Nat := 0        -- taskCallback id in the model
+  deriving Inhabited
+
+structure Sim where
+  s : State
+  err : Bool := false
+  now : Nat := 0
+  cursor : Array Nat
+  wake : Array (Option Nat)
+  blockedQ : List (Nat × Nat) := []   -- (producer, g) in the order they blocked
+  cons : Cons
+  ncons : Nat := 0
+  closeDone : Bool := false
+  srec : Array SRec
+  R : Array String := #[]
+  X : Array String := #[]
+  executed : Array Bool
+  G : Array (Option String)
+  waiting : List Nat := []            -- g of getters blocked in Get2
+
+def alignUp (x : Nat) : Nat :=
+  let r := x % 16
+  if r ≤ 8 then x - r + 8 else x - r + 24
+
+def showOpt : Option Nat → String
+  | none => "nil"
+  | some v => toString v
+
+def showPair (r : Pair) : String := showOpt r.1 ++ "/" ++ showOpt r.2
+
+def showT : Option Nat → String
+  | none => "-"
+  | some v => toString v
+
+def pairOf (code v : Nat) : Pair :=
+  (if code % 2 = 1 then some v else none, if code / 2 % 2 = 1 then some v else none)
+
+def kindCode (kind : String) : Nat := ((kind.drop 2).toString.toNat?).getD 0
+
+def isCb (kind : String) : Bool := kind.startsWith "cb" || kind.startsWith "cd"
+
+def tag (sp : SendSpec) : String := s!"{sp.p}.{sp.i}"
+
+def doStep (sim : Sim) (a : Act) : Sim :=
+  match step sim.s a with
+  | some s' => { sim with s := s' }
+  | none => { sim with err := true }
+
+def hintOf (hints : List (String × String)) (t : String) : String :=
+  match hints.find? (fun h => h.1 = t) with
+  | some h => h.2
+  | none => "put"
+
+mutual
+
+/-- consumer receives the head of the channel at `now` -/
+partial def consRecv (sc : Scn) (hints : List (String × String)) (sim : Sim) : Sim :=
+  match sim.s.chan with
+  | [] => { sim with cons := .waiting }
+  | m :: _ =>
+    let sim := doStep sim .recv
+    let sp := (sc.byProd[m.prod]!)[m.seq]!
+    let sim := { sim with R := sim.R.push s!"{tag sp}@{sim.now}" }
+    let delay := sc.cdel[sim.ncons % sc.cdel.size]!
+    let sim := { sim with cons := .busy (alignUp (sim.now + delay)) sp.g 1 delay, ncons := sim.ncons + 1 }
+    -- a sender blocked on the full channel is handed the free slot (sendq is FIFO)
+    match sim.blockedQ with
+    | (p, g) :: rest =>
+      if sim.s.chan.length < sim.s.cap then
+        let sim := { sim with blockedQ := rest }
+        let sim := doPut sc hints sim p g
+        procProducer sc hints p sim
+      else sim
+    | [] => sim
+
+partial def doPut (sc : Scn) (hints : List (String × String)) (sim : Sim) (p g : Nat) : Sim :=
+  let sim := doStep sim (.put p)
+  let sp := sc.sends[g]!
+  let sim := { sim with srec := sim.srec.modify g (fun r => { r with tr := some sim.now, out := "put" }),
+                        cursor := sim.cursor.modify p (· + 1),
+                        waiting := if isCb sp.kind then sim.waiting ++ [g] else sim.waiting }
+  match sim.cons with
+  | .waiting => consRecv sc hints sim
+  | _ => sim
+
+partial def doAbort (sc : Scn) (sim : Sim) (p g : Nat) : Sim :=
+  let sim := doStep sim (.abort p)
+  let sp := sc.sends[g]!
+  { sim with srec := sim.srec.modify g (fun r => { r with tr := some sim.now, out := "abort" }),
+             cursor := sim.cursor.modify p (· + 1),
+             waiting := if isCb sp.kind then sim.waiting ++ [g] else sim.waiting }
+
+/-- producer p runs at `now` until it sleeps, blocks or is finished -/
+partial def procProducer (sc : Scn) (hints : List (String × String)) (p : Nat) (sim : Sim) : Sim :=
+  match (sc.byProd[p]!)[sim.cursor[p]!]? with
+  | none => { sim with wake := sim.wake.set! p none }
+  | some sp =>
+    if sp.at_ > sim.now then { sim with wake := sim.wake.set! p (some sp.at_) }
+    else
+      let g := sp.g
+      if sp.kind = "nil" then
+        let sim := doStep sim (.sendCallback p false)
+        let v := match get2 sim.s .empty with | some r => showPair r | none => "blocked"
+        let sim := { sim with srec := sim.srec.set! g { tb := some sim.now, tr := some sim.now, out := "imm" },
+                              cursor := sim.cursor.modify p (· + 1),
+                              G := sim.G.set! g (some s!"{sim.now}={v}") }
+        procProducer sc hints p sim
+      else if sp.kind = "tn" then
+        let sim := doStep sim (.sendTask p none)
+        let sim := { sim with srec := sim.srec.set! g { tb := some sim.now, tr := some sim.now, out := "imm" },
+                              cursor := sim.cursor.modify p (· + 1) }
+        procProducer sc hints p sim
+      else
+        let id := sim.s.nextTask
+        let sim := if sp.kind = "tk" then doStep sim (.sendTask p (some (.user g))) else doStep sim (.sendCallback p true)
+        let sim := { sim with srec := sim.srec.set! g { tb := some sim.now, id := id } }
+        let canPut := sim.s.chan.length < sim.s.cap
+        let canAbort := sim.s.closed
+        let choice :=
+          if canPut && canAbort then (if hintOf hints (tag sp) = "abort" then "abort" else "put")
+          else if canPut then "put" else if canAbort then "abort" else "block"
+        if choice = "put" then procProducer sc hints p (doPut sc hints sim p g)
+        else if choice = "abort" then procProducer sc hints p (doAbort sc sim p g)
+        else { sim with blockedQ := sim.blockedQ ++ [(p, g)], wake := sim.wake.set! p none }
+
+end
+
+/-- getters waiting on task g are released: they read result/err through the model's `get2` -/
+def wakeGetters (sim : Sim) (g : Nat) : Sim :=
+  if sim.waiting.contains g then
+    let id := sim.srec[g]!.id
+    let v := match get2 sim.s (.cb id) with | some r => showPair r | none => "blocked"
+    { sim with waiting := sim.waiting.filter (· ≠ g), G := sim.G.set! g (some s!"{sim.now}={v}") }
+  else sim
+
+partial def consWake (sc : Scn) (hints : List (String × String)) (sim : Sim) (g phase delay : Nat) : Sim :=
+  let sp := sc.sends[g]!
+  let afterDo (sim : Sim) : Sim :=
+    match sc.cstop with
+    | some n => if sim.ncons ≥ n then { sim with cons := .stopped } else consRecv sc hints { sim with cons := .waiting }
+    | none => consRecv sc hints { sim with cons := .waiting }
+  if sp.kind = "tk" then
+    let sim := doStep sim .doOther
+    let sim := { sim with X := sim.X.push s!"{tag sp}@{sim.now}=user", executed := sim.executed.set! g true }
+    afterDo sim
+  else
+    let id := sim.srec[g]!.id
+    let v := 1000 * sp.p + sp.i + 1
+    let r := if phase = 1 then pairOf (kindCode sp.kind) v else pairOf ((kindCode sp.kind + 1) % 4) (v + 500000)
+    let sim := doStep sim (.call r)
+    let sim := doStep sim .store
+    let sim := doStep sim .finish
+    let sim := { sim with X := sim.X.push s!"{tag sp}@{sim.now}={showPair r}", executed := sim.executed.set! g true }
+    let sim := wakeGetters sim g
+    if sp.kind.startsWith "cd" && phase = 1 then
+      let sim := doStep sim (.redo id)
+      { sim with cons := .busy (alignUp (sim.now + delay)) g 2 delay }
+    else afterDo sim
+
+def minOpt (a : Option Nat) (b : Option Nat) : Option Nat :=
+  match a, b with
+  | none, b => b
+  | a, none => a
+  | some x, some y => some (min x y)
+
+partial def loop (sc : Scn) (hints : List (String × String)) (sim : Sim) (fuel : Nat) : Sim :=
+  if fuel = 0 then { sim with err := true } else
+  let tClose := if sim.closeDone then none else sc.close
+  let tCons := match sim.cons with
+    | .notStarted t => some t
+    | .busy fin _ _ _ => some fin
+    | _ => none
+  let tProd := sim.wake.foldl minOpt none
+  match minOpt tClose (minOpt tCons tProd) with
+  | none => sim
+  | some t =>
+    let sim := { sim with now := t }
+    if tClose = some t then
+      let sim := doStep sim .close
+      let bq := sim.blockedQ
+      let sim := { sim with closeDone := true, blockedQ := [] }
+      let sim := bq.foldl (fun sim pg => doAbort sc sim pg.1 pg.2) sim
+      let sim := bq.foldl (fun sim pg => procProducer sc hints pg.1 sim) sim
+      loop sc hints sim (fuel - 1)
+    else if tCons = some t then
+      let sim := match sim.cons with
+        | .notStarted _ => consRecv sc hints { sim with cons := .waiting }
+        | .busy _ g phase delay => consWake sc hints sim g phase delay
+        | _ => sim
+      loop sc hints sim (fuel - 1)
+    else
+      -- the lowest producer id whose wake instant is t
+      let p := (List.range sim.wake.size).find? (fun p => sim.wake[p]! = some t)
+      match p with
+      | some p => loop sc hints (procProducer sc hints p sim) (fuel - 1)
+      | none => { sim with err := true }
+
+def render (sc : Scn) (sim : Sim) : String :=
+  let sPart := sc.sends.toList.map (fun sp =>
+    let r := sim.srec[sp.g]!
+    let out := if r.tb.isSome && r.tr.isNone then "blocked" else r.out
+    s!"{tag sp}:{sp.kind}:{showT r.tb}:{showT r.tr}:{out}")
+  let gPart := sc.sends.toList.filterMap (fun sp =>
+    match sim.G[sp.g]! with
+    | some v => some s!"{tag sp}@{v}"
+    | none => if isCb sp.kind && sim.srec[sp.g]!.tr.isSome then some s!"{tag sp}@-" else none)
+  let hPart := sc.sends.toList.filterMap (fun sp =>
+    if isCb sp.kind && sim.srec[sp.g]!.tb.isSome then
+      if sim.executed[sp.g]! then
+        match get2 sim.s (.cb sim.srec[sp.g]!.id) with
+        | some r => some s!"{tag sp}={showPair r}"
+        | none => some s!"{tag sp}=blocked"
+      else some s!"{tag sp}=-"
+    else none)
+  let lPart := sim.s.chan.map (fun m => s!"{m.prod}.{m.seq}")
+  joinSp (["S"] ++ sPart ++ ["|", "R"] ++ sim.R.toList ++ ["|", "X"] ++ sim.X.toList ++ ["|", "G"] ++ gPart
+    ++ ["|", "H"] ++ hPart ++ ["|", "F", toString sim.s.fullLogs, "|", "L"] ++ lPart
+    ++ ["|", "E", if sim.err then "model-step-disabled" else "ok"])
+
+def parseOptNat (s : String) : Option Nat := if s = "-" then none else s.toNat?
+
+def parseScript (line : String) : Option Scn :=
+  match line.splitOn " | " with
+  | [head, body] =>
+    match words head with
+    | "c09" :: "K" :: k :: "close" :: cl :: "cstop" :: cs :: "cons" :: cstart :: dels =>
+      let ops := (body.splitOn " ; ").map words
+      let rec build (ops : List (List String)) (g : Nat) (cnt : Array Nat) (acc : Array SendSpec) : Option (Array SendSpec) :=
+        match ops with
+        | [] => some acc
+        | [p, kind, t] :: rest =>
+          match p.toNat?, t.toNat? with
+          | some p, some t =>
+            let cnt := if p < cnt.size then cnt else cnt ++ Array.replicate (p + 1 - cnt.size) 0
+            build rest (g + 1) (cnt.modify p (· + 1)) (acc.push { g := g, p := p, i := cnt[p]!, kind := kind, at_ := t })
+          | _, _ => none
+        | [] :: rest => build rest g cnt acc
+        | _ => none
+      match k.toNat?, cstart.toNat?, build ops 0 #[] #[] with
+      | some k, some cstart, some sends =>
+        let nP := sends.foldl (fun n sp => max n (sp.p + 1)) 0
+        let byProd := (Array.range nP).map (fun p => sends.filter (fun sp => sp.p = p))
+        let cdel := (dels.filterMap String.toNat?).toArray
+        some { K := k, close := parseOptNat cl, cstop := parseOptNat cs, cstart := cstart,
+               cdel := if cdel.isEmpty then #[16] else cdel, sends := sends, byProd := byProd }
+      | _, _, _ => none
+    | _ => none
+  | _ => none
+
+/-- hints: (tag, out) for every send of the implementation's S section -/
+def parseHints (impl : String) : List (String × String) :=
+  match impl.splitOn " | " with
+  | sPart :: _ =>
+    (words sPart).filterMap (fun w =>
+      match w.splitOn ":" with
+      | [t, _, _, _, out] => some (t, out)
+      | _ => none)
+  | [] => []
+
+def simulate (sc : Scn) (hints : List (String × String)) : String :=
+  let nP := sc.byProd.size
+  let n := sc.sends.size
+  let sim : Sim := { s := init sc.K, cursor := Array.replicate nP 0, wake := Array.replicate nP none,
+                     cons := .notStarted (alignUp sc.cstart), srec := Array.replicate n {},
+                     executed := Array.replicate n false, G := Array.replicate n none }
+  -- every producer starts at instant 0
+  let sim := (List.range nP).foldl (fun sim p => procProducer sc hints p sim) sim
+  let sim := loop sc hints sim (40 * n + 100)
+  render sc sim
+
+def stepLine (_ : Unit) (line : String) : Unit × String :=
+  if line.isEmpty then ((), "") else
+  let (script, impl) := match line.splitOn "\t" with
+    | [s, i] => (s, i)
+    | [s] => (s, "")
+    | _ => (line, "")
+  match parseScript script with
+  | none => ((), "reject bad-script")
+  | some sc =>
+    let m := simulate sc (parseHints impl)
+    if impl.isEmpty then ((), m)                       -- run mode (no observation): print the model's line
+    else if m = impl then ((), "ok") else ((), "reject " ++ m)
 
 def main (_args : List String) : IO Unit := do
-  IO.eprintln "drv_taskq: not implemented"
+  lineLoop (← IO.getStdin) (← IO.getStdout) stepLine ()
 
 end Got.Drv.TaskQ
